@@ -522,6 +522,19 @@ func (b *setBox[T]) CheckState() *Viol {
 	if s := b.a.str(); !strings.HasPrefix(s, b.a.name) {
 		return viol(tag("C15"), "invariant", "String() = %q does not begin with %q", s, b.a.name)
 	}
+	// the set operations range over the internal table, every other observer over the ordering structure:
+	// Union with a fresh empty set (both roles) and Difference with it must hold exactly the members
+	if b.a.union != nil && b.a.diff != nil {
+		e := b.sys.newAPI()
+		for _, c := range []struct {
+			what string
+			got  []T
+		}{{"Union(empty)", b.a.union(e).values()}, {"empty.Union(this)", e.union(b.a).values()}, {"Difference(empty)", b.a.diff(e).values()}} {
+			if !sameMultiset(c.got, b.ref) {
+				return viol(tag("C13", "C04"), "mismatch", "%s of the set with members %v = %v", c.what, b.ref, c.got)
+			}
+		}
+	}
 	// Contains for every tuple of length <= 2 over universe + absent, and the empty call
 	vals := append(append([]T{}, b.sys.U...), b.sys.Absent)
 	if b.sys.Gen != nil {
